@@ -416,6 +416,54 @@ def packer_facts():
     return f
 
 
+class _Rename(ast.NodeTransformer):
+    def __init__(self, mapping):
+        self.mapping = mapping
+
+    def visit_Name(self, node):
+        if node.id in self.mapping:
+            return ast.copy_location(ast.Name(id=self.mapping[node.id], ctx=node.ctx), node)
+        return node
+
+
+def _splice_helpers(stmts, cls):
+    """`X = self._h(a, ..)` / `X = Cls._h(a, ..)` where _h is a function of the same class whose body is straight-line
+    code ending in `return <expr>`: replaced by the body (parameters renamed to the argument names) and `X = <expr>`.
+    One level only."""
+    import copy
+    out = []
+    for st in stmts:
+        call = st.value if isinstance(st, ast.Assign) and len(st.targets) == 1 and isinstance(st.targets[0], ast.Name) else None
+        helper = None
+        if isinstance(call, ast.Call) and isinstance(call.func, ast.Attribute) and isinstance(call.func.value, ast.Name) \
+                and call.func.value.id in ("self", "cls", cls.__name__) and not call.keywords \
+                and all(isinstance(a, ast.Name) for a in call.args):
+            raw = cls.__dict__.get(call.func.attr)
+            fn = getattr(raw, "__func__", raw)
+            if callable(fn) and hasattr(fn, "__code__"):
+                try:
+                    helper = _fn_ast(fn)
+                except Exception:  # noqa
+                    helper = None
+        if helper is None:
+            out.append(st)
+            continue
+        params = [a.arg for a in helper.args.args]
+        if not isinstance(raw, staticmethod):
+            params = params[1:]
+        body = _body(helper)
+        if len(params) != len(call.args) or not body or not isinstance(body[-1], ast.Return) or body[-1].value is None \
+                or any(isinstance(n, (ast.Return, ast.Yield, ast.YieldFrom)) for b in body[:-1] for n in ast.walk(b)):
+            out.append(st)
+            continue
+        ren = _Rename({p: a.id for p, a in zip(params, call.args)})
+        for b in body[:-1]:
+            out.append(ast.fix_missing_locations(ren.visit(copy.deepcopy(b))))
+        out.append(ast.fix_missing_locations(ast.Assign(targets=[copy.deepcopy(st.targets[0])], value=ren.visit(copy.deepcopy(body[-1].value)),
+                                                        lineno=st.lineno)))
+    return out
+
+
 def adapter_facts(f):
     from flow.record.adapter import jsonfile
     W, R = jsonfile.JsonfileWriter, jsonfile.JsonfileReader
@@ -456,7 +504,7 @@ def adapter_facts(f):
     n2 = n1.orelse[0]
     if not (_is(n2.test, "isinstance(%s, record.RecordDescriptor)" % ov) and len(n2.body) == 1 and isinstance(n2.body[0], ast.Pass)):
         raise Unsupported("JsonfileReader.__iter__: descriptor test")
-    fb = _body(ast.Module(body=n2.orelse, type_ignores=[]))
+    fb = _splice_helpers(_body(ast.Module(body=n2.orelse, type_ignores=[])), R)
     srcs = [_src(s) for s in fb]
     if not (len(fb) == 5 and srcs[0] == "jd = json.loads(line)" and srcs[3] == "%s = desc(**jd)" % ov):
         raise Unsupported("JsonfileReader.__iter__: fallback shape: %r" % srcs[:4])
@@ -573,19 +621,338 @@ def type_facts(f):
     return f
 
 
+# ------------------------------------------------------------------------------------------
+# OBSERVED facts: the real functions run on purpose-built probes.  These are what the generated file is printed
+# from; the source recognisers above are a cross-check (recognised and contradicting -> fail closed; not recognised
+# -> a note in the generated file).
+
+def _probe_dir():
+    import tempfile
+    base = GEN.parent.parent / ".work" if (GEN.parent.parent / ".work").is_dir() else None
+    return tempfile.mkdtemp(prefix="c14facts.", dir=str(base) if base else None)
+
+
+def observe(kinds):
+    import base64
+    import datetime as pydt
+    import json
+    import os
+    import shutil
+
+    import flow.record.jsonpacker as jp
+    from flow.record import RecordDescriptor, fieldtypes
+    from flow.record.adapter import jsonfile
+    from flow.record.exceptions import RecordDescriptorNotFound
+    from flow.record.fieldtypes.net import ipaddress, ipnetwork
+    P = jp.JsonRecordPacker
+    ts = pydt.datetime(2001, 2, 3, 4, 5, 6, 7, tzinfo=pydt.timezone(pydt.timedelta(hours=1, minutes=30)))
+    f = {}
+
+    # ---- per-class encoding: pack_obj on values of every class json.dumps hands to default=
+    md5, sha1 = "d41d8cd98f00b204e9800998ecf8427e", "da39a3ee5e6b4b0d3255bfef95601890afd80709"
+    probes = [
+        ("CDatetime", fieldtypes.datetime, [fieldtypes.datetime(ts), fieldtypes.datetime(2020, 1, 2, tzinfo=pydt.timezone.utc)]),
+        ("CDigest", fieldtypes.digest, [fieldtypes.digest((md5, sha1, None)), fieldtypes.digest()]),
+        ("CIpAddress", ipaddress, [ipaddress("::1"), ipaddress("1.2.3.4")]),
+        ("CIpNetwork", ipnetwork, [ipnetwork("10.0.0.0/8"), ipnetwork("2001:db8::/32")]),
+        ("CBytes", fieldtypes.bytes, [fieldtypes.bytes(b""), fieldtypes.bytes(b"a"), fieldtypes.bytes(b"\x00\xff"), fieldtypes.bytes(b"abc")]),
+        ("CPath", fieldtypes.posix_path, [fieldtypes.path("/tmp/x y"), fieldtypes.path("")]),
+    ]
+    actions = [
+        ("AIsoformat", lambda v: pydt.datetime.isoformat(v)),
+        ("ADigestDict", lambda v: {"md5": v.md5, "sha1": v.sha1, "sha256": v.sha256}),
+        ("ABase64", lambda v: base64.b64encode(bytes(v)).decode("ascii")),
+        ("AStr", lambda v: str(v)),
+        ("ACommandDict", lambda v: {"executable": v.executable, "args": v.args}),
+    ]
+    f["dispatch"] = {}
+    for cname, cls, values in probes:
+        if issubclass(cls, (str, int, float, list, tuple, dict)):
+            raise Unsupported("%s is natively serialisable by json.dumps; the model sends it to pack_obj" % cls)
+        matching = None
+        for v in values:
+            try:
+                got = P().pack_obj(v)
+            except Exception as e:  # noqa
+                got = ("raises", type(e).__name__)
+            here = set()
+            for aname, fn in actions:
+                try:
+                    want = fn(v)
+                except Exception:  # noqa
+                    continue
+                if type(want) is type(got) and want == got and (not isinstance(want, dict) or list(want) == list(got)):
+                    here.add(aname)
+            matching = here if matching is None else matching & here
+        if len(matching) != 1:
+            raise Unsupported("pack_obj on %s values returns something the model has no single action for (candidates %s), e.g. %r -> %r" % (
+                cls.__name__, sorted(matching), values[0], got))
+        f["dispatch"][cname] = matching.pop()
+
+    # ---- markers
+    D = RecordDescriptor("verif/obs", [("string", "s"), ("varint", "n")])
+    r = D(s="x", n=1, _generated=ts)
+    plain_keys = list(r._asdict())
+    on = P(pack_descriptors=True).pack_obj(r)
+    off = P(pack_descriptors=False).pack_obj(r)
+    extra_on = [k for k in on if k not in plain_keys]
+    extra_off = [k for k in off if k not in plain_keys]
+    if list(on)[:len(plain_keys)] != plain_keys or list(off)[:len(plain_keys)] != plain_keys or len(extra_on) != 2:
+        raise Unsupported("pack_obj(record) is not the slots in slot order followed by two markers: %r" % list(on))
+    k1, k2 = extra_on
+    if not (isinstance(on[k1], str) and tuple(on[k2]) == tuple(D.identifier)):
+        raise Unsupported("pack_obj(record): markers are not <key>: <text>, <key>: identifier")
+    f["type_key"], f["record_marker"], f["desc_key"] = k1, on[k1], k2
+    if extra_off == []:
+        f["markers_guarded"] = True
+    elif extra_off == extra_on:
+        f["markers_guarded"] = False
+    else:
+        raise Unsupported("pack_obj(record) with pack_descriptors=False adds %r" % extra_off)
+    dd = P().pack_obj(D)
+    if not (isinstance(dd, dict) and len(dd) == 2 and list(dd)[0] == k1 and isinstance(dd[k1], str)):
+        raise Unsupported("pack_obj(descriptor) is not {type key: <text>, <key>: ...}")
+    dk = list(dd)[1]
+    if not (dd[dk][0] == D.name and [tuple(x) for x in dd[dk][1]] == [tuple(x) for x in D.get_field_tuples()]):
+        raise Unsupported("pack_obj(descriptor): second member is not (name, fields)")
+    f["descriptor_marker"], f["data_key"] = dd[k1], dk
+
+    # ---- boolean cast: which declared types turn an int value into a JSON boolean
+    f["bool_cast"] = []
+    for name, kind in kinds:
+        if kind not in ("KBool", "KInt", "KU16", "KU32"):
+            continue
+        B = RecordDescriptor("verif/obsb", [(name, "v")])
+        res = [type(P().pack_obj(B(v=x, _generated=ts))["v"]) is bool for x in (0, 1)]
+        if res[0] != res[1]:
+            raise Unsupported("boolean cast of %s depends on the value" % name)
+        if res[0]:
+            f["bool_cast"].append(name)
+
+    # ---- reader: what unpack does with a descriptor line and a record line
+    def lines_for(desc, **members):
+        w = P()
+        dline = w.pack(desc)
+        doc = json.loads(w.pack(desc(_generated=ts)))
+        doc.update(members)
+        return dline, json.dumps(doc)
+
+    dline, rline = lines_for(D, s="x")
+    rd = P()
+    got = rd.unpack(dline)
+    if not isinstance(got, RecordDescriptor) or got != D:
+        raise Unsupported("unpack(descriptor line) does not give the descriptor")
+    try:
+        rec = rd.unpack(rline)
+        f["reader_registers"], f["removes_markers"] = True, True
+        if not (rec._desc == D and rec.s == "x" and rec.n is None):
+            raise Unsupported("unpack(record line) gives %r" % (rec,))
+    except RecordDescriptorNotFound:
+        f["reader_registers"], f["removes_markers"] = False, True
+    except TypeError:
+        f["reader_registers"], f["removes_markers"] = True, False
+    f["b64_scalar"], f["b64_list"] = [], []
+    f["skip_none"] = True
+    if f["reader_registers"] and f["removes_markers"]:
+        for name, kind in kinds:
+            for tname, member, want, acc in ((name, "YWI=", b"ab", f["b64_scalar"]), (name + "[]", ["YWI=", ""], [b"ab", b""], f["b64_list"])):
+                Bd = RecordDescriptor("verif/obs64", [(tname, "v")])
+                dl, rl = lines_for(Bd, v=member)
+                rd = P()
+                try:
+                    rd.unpack(dl)
+                    val = rd.unpack(rl).v
+                except Exception:  # noqa
+                    continue
+                raw = bytes(val) if isinstance(val, bytes) else [bytes(x) for x in val] if isinstance(val, list) and all(isinstance(x, bytes) for x in val) else None
+                if raw == want:
+                    acc.append(tname)
+            if kind == "KBytes":
+                for tname in (name, name + "[]"):
+                    Bd = RecordDescriptor("verif/obs64", [(tname, "v"), ("string", "s")])
+                    dl, rl = lines_for(Bd, v=None, s="t")
+                    rd = P()
+                    rd.unpack(dl)
+                    try:
+                        rec = rd.unpack(rl)
+                        if not (rec.s == "t" and (rec.v is None or rec.v == [])):
+                            raise Unsupported("a null %s member reads as %r" % (tname, rec.v))
+                    except TypeError:
+                        f["skip_none"] = False
+
+    # ---- registration guards: two descriptors sharing the whole identifier
+    A = RecordDescriptor("verif/coll", [("string", "x"), ("varint", "stringy")])
+    Bc = RecordDescriptor("verif/coll", [("string", "xstring"), ("varint", "y")])
+    if A.identifier != Bc.identifier:
+        raise Unsupported("the probe descriptors no longer share an identifier (descriptor hash input changed)")
+    events = []
+    pk = P()
+    pk.on_descriptor.add_handler(events.append)
+    pk.register(A, True)
+    pk.register(Bc, True)
+    pk.register(Bc, True)
+    pk.register(A, True)
+    if events == [A, Bc, A]:
+        f["register_guard"] = True
+    elif events == [A]:
+        f["register_guard"] = False
+    else:
+        raise Unsupported("register: notifications %r" % events)
+    events = []
+    pk = P()
+    pk.on_descriptor.add_handler(events.append)
+    for d in (A, A, Bc, Bc, A):
+        pk.pack_obj(d(_generated=ts))
+    if events == [A, Bc, A]:
+        f["pack_guard"] = True
+    elif events == [A]:
+        f["pack_guard"] = False
+    else:
+        raise Unsupported("pack_obj: descriptor notifications %r" % events)
+
+    # ---- writer and reader of the adapter, on files
+    tmp = _probe_dir()
+    try:
+        recs = [A(x="a", stringy=1, _generated=ts), Bc(xstring="b", y=2, _generated=ts), A(x="c", stringy=3, _generated=ts), A(x="d", _generated=ts)]
+        for on_arg, is_on in ((True, True), ("true", True), ("1", True), (False, False), ("false", False), ("0", False)):
+            path = os.path.join(tmp, "w.json")
+            w = jsonfile.JsonfileWriter(path, descriptors=on_arg)
+            for x in recs:
+                w.write(x)
+            w.flush()
+            w.close()
+            with open(path) as fh:
+                docs = [json.loads(ln) for ln in fh.read().split("\n")[:-1]]
+            kinds_seen = [d.get(f["type_key"]) for d in docs]
+            rm, dm = f["record_marker"], f["descriptor_marker"]
+            if f["pack_guard"] and f["register_guard"] and f["markers_guarded"]:
+                want = [dm, rm, dm, rm, dm, rm, rm] if is_on else [None] * 4
+                if kinds_seen != want:
+                    raise Unsupported("JsonfileWriter(descriptors=%r) writes the document kinds %r, expected %r (descriptor document "
+                                      "before the first record that needs it)" % (on_arg, kinds_seen, want))
+        # plain documents: the fallback
+        path = os.path.join(tmp, "plain.json")
+        with open(path, "w") as fh:
+            fh.write(json.dumps({"a": 1, "b": None, "c": [1], "d": {"k": 1}, "e": "t", "_source": "src", "_generated": ts.isoformat()}) + "\n")
+            fh.write(json.dumps({"a": "now text"}) + "\n")
+        rd = jsonfile.JsonfileReader(path)
+        got = list(rd)
+        rd.close()
+        if len(got) != 2:
+            raise Unsupported("JsonfileReader yields %d records for two plain documents" % len(got))
+        g = got[0]
+        names = [n for _, n in g._desc.get_field_tuples()]
+        if names != ["a", "b", "c", "d", "e"] or g._source != "src" or g._generated != ts:
+            raise Unsupported("plain-document fallback: fields %r, _source %r" % (names, g._source))
+        types = dict((n, t) for t, n in g._desc.get_field_tuples())
+        if not (types["b"] == types["c"] == types["d"]):
+            raise Unsupported("plain-document fallback: null / list / dict members get different types")
+        f["fallback_name"] = g._desc.name
+        f["ftv_default"] = types["b"]
+        if got[1]._desc.name != g._desc.name or got[1]._desc.get_field_tuples() != (("string", "a"),) and got[1].a != "now text":
+            raise Unsupported("plain-document fallback: second document")
+    finally:
+        shutil.rmtree(tmp, ignore_errors=True)
+
+    # ---- fieldtype_for_value on the classes json.loads produces (asked in several orders: it must be a function)
+    ftv = fieldtypes.fieldtype_for_value
+    sentinel = "verif-default"
+    probes2 = [("str", "x"), ("str", ""), ("float", 1.0), ("float", 0.0), ("bool", True), ("bool", False), ("int", 1), ("int", 0),
+               ("int", 2 ** 70), ("float", float("nan"))]
+    seen = {}
+    for order in (probes2, list(reversed(probes2)), probes2[4:] + probes2[:4]):
+        for cname, v in order:
+            t = ftv(v, sentinel)
+            key = (cname, repr(v))
+            if seen.setdefault(key, t) != t:
+                raise Unsupported("fieldtype_for_value(%r) answers %r and %r depending on earlier calls" % (v, seen[key], t))
+    per = {}
+    for (cname, _), t in seen.items():
+        if per.setdefault(cname, t) != t:
+            raise Unsupported("fieldtype_for_value is not uniform on %s values" % cname)
+        if t == sentinel:
+            raise Unsupported("fieldtype_for_value has no answer for %s values" % cname)
+    for v in (None, [1], {"k": 1}):
+        if ftv(v, sentinel) != sentinel:
+            raise Unsupported("fieldtype_for_value(%r) is not the default" % (v,))
+    # bool first: a parsed true/false is an instance of bool AND int, and gets the type observed for bool
+    f["ftv"] = [("str", per["str"]), ("float", per["float"]), ("bool", per["bool"]), ("int", per["int"])]
+    return f
+
+
+def _recognised():
+    """the source recognisers, each on its own: (facts, notes)"""
+    rec, notes = {}, []
+    for fn in (packer_facts, adapter_facts, ftv_facts):
+        try:
+            part = {}
+            res = fn() if fn is packer_facts else fn(part)
+            rec.update(res)
+        except Unsupported as e:
+            notes.append("%s: %s" % (fn.__name__, " ".join(str(e).split())))
+    return rec, notes
+
+
+def _first_branch(branches, names):
+    for cls, act in branches:
+        if any(c in names for c in cls):
+            return act
+    return None
+
+
+def _cross_check(obs, rec, supported_names):
+    """a recognised source that contradicts the observed behaviour: fail closed"""
+    bad = []
+    for k in ("type_key", "desc_key", "data_key", "record_marker", "descriptor_marker", "markers_guarded", "skip_none",
+              "pack_guard", "register_guard", "reader_registers", "removes_markers", "fallback_name", "ftv_default"):
+        if k in rec and rec[k] != obs[k]:
+            bad.append("%s: source %r, observed %r" % (k, rec[k], obs[k]))
+    for k in ("bool_cast", "b64_scalar", "b64_list"):
+        if k in rec and set(x for x in rec[k] if x in supported_names) != set(obs[k]):
+            bad.append("%s: source %r, observed %r" % (k, rec[k], obs[k]))
+    if "branches" in rec and "instances" in rec:
+        inst = dict(rec["instances"])
+        for cname, act in obs["dispatch"].items():
+            src = _first_branch(rec["branches"], inst.get(cname, []))
+            if src != act:
+                bad.append("pack_obj %s: source %r, observed %r" % (cname, src, act))
+    if "ftv" in rec:
+        def src_ftv(classes):
+            for c, t in rec["ftv"]:
+                if c in classes:
+                    return t
+            return None
+        for cname, classes in (("str", ["str"]), ("float", ["float"]), ("bool", ["bool", "int"]), ("int", ["int"])):
+            if src_ftv(classes) != dict(obs["ftv"])[cname]:
+                bad.append("fieldtype_for_value %s: source %r, observed %r" % (cname, src_ftv(classes), dict(obs["ftv"])[cname]))
+    if bad:
+        raise Unsupported("the source as recognised contradicts the observed behaviour: " + "; ".join(bad))
+
+
 def gen_json():
-    f = packer_facts()
-    adapter_facts(f)
-    ftv_facts(f)
+    f = {}
     type_facts(f)
+    supported = {n for n, _ in f["kinds"]} | {n + "[]" for n, _ in f["kinds"]}
+    obs = observe(f["kinds"])
+    rec, notes = _recognised()
+    _cross_check(obs, rec, supported)
+    f.update(obs)
+    class_names = {"CDatetime": "flow.record.fieldtypes.datetime", "CDigest": "flow.record.fieldtypes.digest",
+                   "CIpAddress": "flow.record.fieldtypes.net.ip.ipaddress", "CIpNetwork": "flow.record.fieldtypes.net.ip.ipnetwork",
+                   "CBytes": "flow.record.fieldtypes.bytes", "CPath": "flow.record.fieldtypes.posix_path"}
     pair = lambda a, b: "(%s, %s)" % (a, b)  # noqa: E731
     out = HEADER
     out += "From Coq Require Import List Bool NArith ZArith String.\nImport ListNotations.\nFrom FR Require Import Json.\n"
     out += "Open Scope string_scope.\n\n"
-    out += "(* JsonRecordPacker / JsonfileWriter / JsonfileReader / fieldtype_for_value as they are written now *)\n"
+    out += "(* JsonRecordPacker / JsonfileWriter / JsonfileReader / fieldtype_for_value as they BEHAVE now: every entry is\n"
+    out += "   observed by running the real functions on probes (tools/vf/factgen/c14.py: observe); the source recognisers\n"
+    out += "   are a cross-check that fails closed on contradiction *)\n"
+    for n in notes:
+        out += "(* note: shape not recognised, observed behaviour used -- %s *)\n" % n.replace("(*", "( *").replace("*)", "* )").replace('"', "'")
     out += "Definition json_cfg : jcfg := {|\n"
-    out += "  pack_branches := %s;\n" % clist(pair(clist(T(n) for n in names), act) for names, act in f["branches"])
-    out += "  instance_table := %s;\n" % clist(pair(c, clist(T(n) for n in ns)) for c, ns in f["instances"])
+    out += "  (* pack_obj, per class of value handed to json.dumps(default=): one entry per class with the action observed *)\n"
+    out += "  pack_branches := %s;\n" % clist(pair(clist([T(class_names[c])]), a) for c, a in f["dispatch"].items())
+    out += "  instance_table := %s;\n" % clist(pair(c, clist([T(class_names[c])])) for c in f["dispatch"])
     out += "  type_key := %s; desc_key := %s; data_key := %s;\n" % (T(f["type_key"]), T(f["desc_key"]), T(f["data_key"]))
     out += "  record_marker := %s; descriptor_marker := %s;\n" % (T(f["record_marker"]), T(f["descriptor_marker"]))
     out += "  markers_guarded := %s;\n" % cbool(f["markers_guarded"])
